@@ -417,6 +417,10 @@ def main(argv=None):
             name, kind, line, info = "%s::native-scenarios" % prop, "native", 0, ""
         rp = replay(prop, _O, None, tier)
         scen = {"detail": str(rp.get("detail"))[:300], "reproduced": bool(rp.get("reproduced")), "crashed": bool(rp.get("crashed"))}
+        for wc_ in rp.get("known_seen") or []:
+            for k in known:
+                if k.get("witness_class") == wc_ and not any(k is kh for kh, _ in known_hits):
+                    known_hits.append((k, _O.name))
         if rp.get("crashed") or "no verdict" in str(rp.get("detail")) or "driver failed" in str(rp.get("detail")):
             print("note: replay driver did not complete its scenarios: %s" % str(rp.get("detail"))[:200])
         elif rp.get("reproduced"):
